@@ -55,6 +55,13 @@ def check(ob, facts, timeout_ms=10000, use_cvc5=True, extra=()):
 
 def _check(ob, facts, timeout_ms=10000, use_cvc5=True, extra=()):
     t0 = time.time()
+    try:
+        if z3.is_true(z3.simplify(ob.goal)):
+            # the goal is an identity after term normalisation (both sides built the same way): no search needed
+            ob.status, ob.backend, ob.time = "unsat", "z3-simplify (goal normalises to true)", time.time() - t0
+            return ob.status
+    except z3.Z3Exception:
+        pass
     s = z3.Solver()
     s.set("timeout", timeout_ms)
     if facts is not None:
@@ -82,6 +89,11 @@ def _check(ob, facts, timeout_ms=10000, use_cvc5=True, extra=()):
             if r2 in ("unsat", "sat"):
                 ob.status = r2
                 ob.backend = "cvc5-1.0.3"
+        if ob.status == "unknown":
+            m = refute_numerically(ob, facts)
+            if m is not None:
+                ob.status, ob.model = "sat", m
+                ob.backend = "numeric-sampling (random floating point inputs satisfying every hypothesis; goal evaluated false, tolerance 1e-6)"
         if ob.status == "unknown":
             m = refute_by_sampling(ob, facts)
             if m is not None:
@@ -154,14 +166,17 @@ def _has_var(e):
     return False
 
 
-def refute_by_sampling(ob, facts, tries=12, timeout_ms=3000, seed=0):
+def refute_by_sampling(ob, facts, tries=12, timeout_ms=3000, seed=0, budget_s=40.0):
     import random
     rnd = random.Random(seed)
+    deadline = time.time() + budget_s
     base = list(ob.hyps) + (list(facts.items) + frac_lemmas(facts) if facts is not None else [])
     atoms = _atoms_for_hints(base + [ob.goal])
     if not atoms:
         return None
     for t in range(tries):
+        if time.time() > deadline:
+            return None
         s = z3.Solver()
         s.set("timeout", timeout_ms)
         s.set("random_seed", seed + t)
@@ -212,4 +227,149 @@ def refute_by_sampling(ob, facts, tries=12, timeout_ms=3000, seed=0):
             val = model.eval(inst, model_completion=True)
             if z3.is_false(val):
                 return model
+    return None
+
+
+# ---------------------------------------------------------------------------------------------
+# refutation by numeric sampling: every free constant gets a random floating point / small integer value, every hypothesis is
+# *evaluated* (uninterpreted sqrt, sin, ... by their mathematical meaning) and must hold, the goal must evaluate to false.
+# Gives up (None) on anything it cannot evaluate -- it never guesses.  A hit is replayed on the real function afterwards.
+
+def _free_symbols(exprs):
+    consts, funcs, seen = {}, set(), set()
+    stack = list(exprs)
+    while stack:
+        e = stack.pop()
+        if e.get_id() in seen:
+            continue
+        seen.add(e.get_id())
+        if z3.is_quantifier(e):
+            stack.append(e.body())
+            continue
+        if z3.is_app(e):
+            d = e.decl()
+            if d.kind() == z3.Z3_OP_UNINTERPRETED:
+                if e.num_args() == 0:
+                    consts[d.name()] = e
+                else:
+                    funcs.add(d.name())
+            stack.extend(e.children())
+    return consts, funcs
+
+
+def refute_numerically(ob, facts, tries=400, seed=0, budget_s=10.0):
+    import random
+    from . import numeval
+    hyps = list(ob.hyps)
+    if facts is not None:
+        hyps += [f for f in facts.items if not z3.is_quantifier(f)]
+    consts, funcs = _free_symbols(hyps + [ob.goal])
+    if not funcs <= set(numeval.UF):
+        return None
+    if z3.is_quantifier(ob.goal) or any(z3.is_quantifier(h) for h in hyps):
+        return None
+    rnd = random.Random(seed)
+    deadline = time.time() + budget_s
+    tokens = {}
+    for t in range(tries):
+        if time.time() > deadline:
+            return None
+        assign, values = {}, {}
+
+        def sample(sort):
+            if sort == z3.RealSort():
+                return rnd.choice([rnd.uniform(-2, 2), rnd.uniform(0.1, 1.5), float(rnd.randint(-2, 3)), rnd.uniform(-180, 180)])
+            if sort == z3.IntSort():
+                return rnd.randint(0, 4)
+            if sort == z3.BoolSort():
+                return rnd.random() < 0.85
+            return None
+
+        ok = True
+        for name, c in consts.items():
+            srt = c.sort()
+            if srt.kind() == z3.Z3_ARRAY_SORT:
+                rng = srt.range()
+                if sample(rng) is None:
+                    ok = False
+                    break
+                cache = {}
+                assign[name] = numeval.Arr(lambda *i, cache=cache, rng=rng: cache[i] if i in cache else cache.setdefault(i, sample(rng)))
+                assign[name].cache = cache
+            elif name == "pi" and srt == z3.RealSort():
+                import math
+                assign[name] = math.pi
+            elif srt.kind() == z3.Z3_UNINTERPRETED_SORT:
+                assign[name] = tokens.setdefault(name, 1000 + len(tokens))
+            else:
+                v = sample(srt)
+                if v is None:
+                    ok = False
+                    break
+                assign[name] = v
+            values[name] = assign[name]
+        if not ok:
+            return None
+        try:
+            if not all(numeval.evaluate(h, assign) is True for h in hyps):
+                continue
+            if numeval.evaluate(ob.goal, assign) is not False:
+                continue
+        except numeval.CannotEvaluate:
+            return None
+        except (ZeroDivisionError, ValueError, OverflowError):
+            continue
+        # a z3 model carrying these values (for the replay on the real function)
+        s = z3.Solver()
+        for name, c in consts.items():
+            v = assign[name]
+            if isinstance(v, numeval.Arr):
+                # the whole array is pinned: the entries that were looked at, a neutral default elsewhere (False: finite dict domains)
+                rng_sort = c.sort().range()
+                arr = z3.K(c.sort().domain(), _val(rng_sort, 0))
+                complete = c.sort().kind() == z3.Z3_ARRAY_SORT and len(next(iter(v.cache), (0,))) == 1
+                for (i, x) in list(v.cache.items()):
+                    idx = [_const_of(c.sort().domain(), y, consts, assign) for y in i]
+                    if len(idx) != 1 or idx[0] is None:
+                        complete = False
+                        continue
+                    arr = z3.Store(arr, idx[0], _val(rng_sort, x))
+                if complete:
+                    s.add(c == arr)
+            elif c.sort().kind() == z3.Z3_UNINTERPRETED_SORT:
+                continue
+            else:
+                s.add(c == _val(c.sort(), v))
+        nodes = [c for c in consts.values() if c.sort().kind() == z3.Z3_UNINTERPRETED_SORT]
+        bysort = {}
+        for c in nodes:
+            bysort.setdefault(c.sort().name(), []).append(c)
+        for group in bysort.values():
+            if len(group) > 1:
+                s.add(z3.Distinct(*group))
+        if s.check() == z3.sat:
+            return s.model()
+        return None
+    return None
+
+
+def _val(sort, v):
+    from fractions import Fraction
+    if sort == z3.RealSort():
+        fr = Fraction(v).limit_denominator(10 ** 9)
+        return z3.RealVal(f"{fr.numerator}/{fr.denominator}")
+    if sort == z3.IntSort():
+        return z3.IntVal(int(v))
+    return z3.BoolVal(bool(v))
+
+
+def _const_of(sort, y, consts, assign):
+    if sort == z3.IntSort():
+        return z3.IntVal(int(y))
+    if sort == z3.RealSort():
+        return _val(sort, y)
+    if sort.kind() == z3.Z3_UNINTERPRETED_SORT:
+        for name, c in consts.items():
+            if c.sort() == sort and assign.get(name) == y:
+                return c
     return None
